@@ -1059,7 +1059,7 @@ impl<'a> Run<'a> {
                 let mut partial = self.gacc(false)?;
                 let mut fin = self.gacc(true)?;
                 let mut final_ids: Vec<usize> = vec![];
-                let mut intern = |g: usize, final_ids: &mut Vec<usize>| match final_ids.iter().position(|x| *x == g) {
+                let intern = |g: usize, final_ids: &mut Vec<usize>| match final_ids.iter().position(|x| *x == g) {
                     Some(i) => i,
                     None => {
                         final_ids.push(g);
@@ -1342,7 +1342,7 @@ fn catalog(ctx: &Ctx) -> Vec<Spec> {
     let max_types = ctx.pick(3, 6);
     let mut out: Vec<Spec> = vec![];
     let mut rejected: BTreeMap<String, String> = BTreeMap::new();
-    let mut try_push = |s: Spec, out: &mut Vec<Spec>, rejected: &mut BTreeMap<String, String>| -> bool {
+    let try_push = |s: Spec, out: &mut Vec<Spec>, rejected: &mut BTreeMap<String, String>| -> bool {
         match mc_core::catch(|| build(&s)).unwrap_or_else(Err) {
             Ok(_) => {
                 out.push(s);
@@ -1495,7 +1495,7 @@ fn explore(ctx: &Ctx) {
     let sl_n1 = ctx.pick(3, 4);
     let sl_n2 = ctx.pick(3, 3);
     let null_filters = ctx.thorough();
-    let grp_small_top = ctx.quick();
+    let grp_small_top = true; // both tiers: the longest group histories use NULL + the first two values
     let max_emits = ctx.pick(1, 2);
     ctx.set_extra(
         "bounds",
